@@ -12,6 +12,7 @@ import (
 	"github.com/contiv/libOpenflow/util"
 
 	"vh/fw"
+	"vh/gen"
 	"vh/lib"
 	"vh/prng"
 	"vh/rec"
@@ -168,10 +169,117 @@ func c14Process(w c14Work, variant uint64) (digest uint64, perr string) {
 	return digest, ""
 }
 
+// c14Cold: has this worker process already used the library? State that is initialised lazily on first use can
+// only race on a cold process, so the first case of every process starts with a "first use" storm, and processes
+// are recycled often.
+var c14Cold = true
+var c14CasesInProcess int
+
+// coldStorm lets many goroutines perform the same list of first uses at once - every match-field constructor, every
+// tunnel-metadata index, registry lookups, every action kind, packet and DHCP construction - and requires that they
+// all produced the same bytes (the race detector watches the initialisation).
+func coldStorm(c *fw.Ctx, seed uint64) {
+	const G = 24
+	digests := make([][]uint64, G)
+	start := make(chan struct{})
+	var wg sync.WaitGroup
+	for g := 0; g < G; g++ {
+		wg.Add(1)
+		go func(g int) {
+			defer wg.Done()
+			<-start
+			var d []uint64
+			add := func(b []byte) { d = append(d, prng.Hash64(b)) }
+			order := prng.Derive(seed, uint64(g)).Perm(4)
+			for _, phase := range order { // each goroutine visits the phases in its own order
+				switch phase {
+				case 0:
+					for i, ct := range lib.MFCtors {
+						fw.Recover(func() {
+							r := prng.Derive(seed, 99, uint64(i))
+							if f, err := lib.BuildMatchField(gen.MatchFieldFor(r, ct, gen.MFOpt{})); err == nil {
+								b, _ := f.MarshalBinary()
+								add(b)
+							}
+						})
+					}
+				case 1:
+					for idx := 0; idx < 8; idx++ {
+						fw.Recover(func() {
+							f := of.NewTunMetadataField(idx, []byte{1, 2, 3, 4}, []byte{0xff, 0, 0xff, 0})
+							b, _ := f.MarshalBinary()
+							add(b)
+						})
+					}
+					for _, n := range []string{"NXM_NX_REG0", "NXM_NX_TUN_METADATA3", "OXM_OF_METADATA", "NXM_NX_CT_ZONE", "NXM_NX_XXREG2"} {
+						if f, err := of.FindFieldHeaderByName(n, true); err == nil {
+							add([]byte(fmt.Sprintf("%d/%d/%d", f.Class, f.Field, f.Length)))
+						}
+					}
+				case 2:
+					for i, k := range gen.ActionKinds() {
+						fw.Recover(func() {
+							r := prng.Derive(seed, 98, uint64(i))
+							if a, err := lib.BuildAction(gen.ActionOfKind(r, k, gen.ActOpt{})); err == nil {
+								b, _ := a.MarshalBinary()
+								add(b)
+							}
+						})
+					}
+				default:
+					for i := 0; i < 6; i++ {
+						dg, _ := c14Process(c14Work{kind: []string{"dhcp", "packet", "switch", "ctrl", "registry", "packet"}[i], aux: uint64(i + 1),
+							m: map[int]*rec.Rec{1: pktRecipe(prng.Derive(seed, 97), 1), 5: pktRecipe(prng.Derive(seed, 96), 5), 2: switchRecipe(14, seed, 7), 3: ctrlRecipe(14, "quick", seed, 9)}[i]}, 0)
+						d = append(d, dg)
+					}
+				}
+				// keep per-phase results at fixed positions regardless of the visiting order
+				d = append(d, 0xfeedface+uint64(phase))
+			}
+			digests[g] = d
+		}(g)
+	}
+	close(start)
+	wg.Wait()
+	c.Count("cold_start_storms", 1)
+	canon := func(d []uint64) string { // group by phase marker so that the visiting order does not matter
+		parts := map[uint64][]uint64{}
+		var cur []uint64
+		for _, x := range d {
+			if x >= 0xfeedface && x < 0xfeedface+4 {
+				parts[x] = cur
+				cur = nil
+				continue
+			}
+			cur = append(cur, x)
+		}
+		return fmt.Sprint(parts[0xfeedface], parts[0xfeedface+1], parts[0xfeedface+2], parts[0xfeedface+3])
+	}
+	ref := canon(digests[0])
+	for g := 1; g < G; g++ {
+		if canon(digests[g]) != ref {
+			c.Violation("crosstalk", "result-differs", "cold-start", fmt.Sprintf("goroutine %d of %d performing the same first uses of the library (constructors, lookups, encoders) at process start produced different bytes than goroutine 0", g, G))
+			break
+		}
+	}
+}
+
 func c14Eval(c *fw.Ctx, data any) {
 	cs := data.(*c14Case)
 	old := runtime.GOMAXPROCS(cs.Procs)
 	defer runtime.GOMAXPROCS(old)
+	if c14Cold {
+		c14Cold = false
+		if cs.Procs < 4 {
+			runtime.GOMAXPROCS(4)
+		}
+		coldStorm(c, cs.Seed)
+		runtime.GOMAXPROCS(cs.Procs)
+	}
+	c14CasesInProcess++
+	if c14CasesInProcess >= 5 {
+		c.Recycle()
+	}
 	G := cs.Goroutines
 	c.Distinct(prng.Hash64([]byte(fmt.Sprintf("%+v", *cs))), true)
 	c.Set("goroutines", fmt.Sprint(G))
